@@ -50,6 +50,7 @@ func main() {
 		obsOut   = flag.String("obs-out", "", "write raw obligations as JSON to this file instead of evidence (internal)")
 		overlayF = flag.String("overlay", "", "JSON file {path: content} of in-memory source overlays (internal, used by the sensitivity audit)")
 		list     = flag.Bool("list", false, "list implemented properties")
+		auditF   = flag.Bool("audit", false, "run only the sensitivity audit of the property and print it (development aid)")
 		verbose  = flag.Bool("v", false, "print every obligation")
 	)
 	flag.Parse()
@@ -133,6 +134,16 @@ func main() {
 		if def == nil {
 			fmt.Printf("property %s has no static check (see MANIFEST.json not_applicable)\n", id)
 			os.Exit(2)
+		}
+		if *auditF {
+			a := runAudit(def, *repo, vdir, seed)
+			if a != nil {
+				for _, r := range a["results"].([]mutantResult) {
+					fmt.Printf("%-12s %-11s %s %v\n", r.ID, r.Status, r.Why, r.Reported)
+				}
+				fmt.Println(a["status_counts"])
+			}
+			continue
 		}
 		if *cfgFlag != "" || *obsOut != "" {
 			// internal single-configuration mode
